@@ -18,7 +18,10 @@ PRINTABLE = [chr(c) for c in range(32, 127)]
 def check_mask_case(case, acc):
     from cardutil import card
     n, coding, mc = case['len'], case['coding'], case['mask_char']
-    if coding == 'digits':
+    if coding == 'lit':
+        # a card number that starts with a digit string written in the library's own source
+        pan = (case['prefix'] + isogen.digits(n, case.get('seed', 0) + n))[:n]
+    elif coding == 'digits':
         pan = isogen.digits(n, case.get('seed', 0) + n)
     elif coding == 'ctrl':
         # digits with one unusual character (line feed, carriage return, NUL, tab, NBSP, line separator ...) at a
@@ -27,7 +30,7 @@ def check_mask_case(case, acc):
         pan = pan[:case['at']] + case['ch'] + pan[case['at'] + 1:]
     else:
         pan = isogen.text(n, case.get('seed', 0) + n, [c for c in PRINTABLE if c != mc])
-    acc.case(('mask', n, coding, mc, case.get('at'), case.get('ch')), nontrivial=True, outcome='mask')
+    acc.case(('mask', n, coding, mc, case.get('at'), case.get('ch'), case.get('prefix')), nontrivial=True, outcome='mask')
     try:
         out = card.mask(pan) if mc is None else card.mask(pan, mc)
         # the same question with the documented parameter names
@@ -217,6 +220,10 @@ def tasks(tier, seed):
                                    'at': at, 'ch': ch})
     for n in (41, 64, 99, 100, 255, 999, 1000):
         mask_cases.append({'kind': 'mask', 'len': n, 'coding': 'digits', 'mask_char': None, 'seed': seed})
+    from vf import literals
+    for d in literals.harvest()['digits']:
+        for n in (10, 13, 16, 19):
+            mask_cases.append({'kind': 'mask', 'len': n, 'coding': 'lit', 'prefix': d, 'mask_char': None, 'seed': seed})
     for ch in core.chunks(mask_cases, 8):
         ts.append({'cases': ch})
     cfgs = ['PKG'] + ['GEN%d' % ((seed + 3 * i) % 14) for i in range(4)] if tier == 'quick' else ['PKG'] + ['GEN%d' % s for s in range(14)]
